@@ -76,6 +76,8 @@ Inductive case :=
 | CDIDR (inp : json)
 (* jwk.JWK.MarshalJSON of the NIST-curve public key (x, y): the texts of the members x and y; UnmarshalJSON gave (x, y) back *)
 | CECJ (size : nat) (x y : Z) (xs ys : string)
+(* jwk.JWK.MarshalJSON of an EC private key: the text of the member d (fixed width, as the coordinates) *)
+| CECD (size : nat) (d : Z) (ds : string)
 (* a time text through a pointer-to-time.Time member (encoding/json) and back; None = refused *)
 | CTM (inp : string) (out : option string).
 
@@ -114,6 +116,9 @@ Definition check_case (c : case) : bool :=
       let '(mx, my) := jwk_ec_members size x y in
       String.eqb mx xs && String.eqb my ys &&
       match jwk_ec_read size xs ys with Some (x', y') => Z.eqb x' x && Z.eqb y' y | None => false end
+  | CECD size d ds =>
+      String.eqb (b64url_enc (be_bytes size d)) ds &&
+      match b64_dec true ds with Some b => Nat.eqb (List.length b) size && Z.eqb (be_value b) d | None => false end
   | CTM inp out =>
       match norm_time inp, out with
       | Some a, Some b => String.eqb a b
